@@ -111,6 +111,25 @@ def run(n_cases=300, seed=0):
             v = harness.eval_array(s, env)
             if not np.allclose(v, ref, rtol=1e-9, atol=1e-12):
                 fails.append(("proxy", case, j))
+    # 5. numpy's norm dispatch (vector / Frobenius / spectral) is reproduced or refused, never silently replaced
+    A = rng_matrix(rng, 3, 2)
+    S = npx.obj(A)
+    for kw in [dict(), dict(ord=2, axis=1), dict(ord=2, axis=0, keepdims=True), dict(ord="fro"), dict(axis=(0, 1)), dict(ord="fro", axis=(0, 1))]:
+        done += 1
+        v = harness.eval_array(np.asarray(npx.NPX.linalg.norm(S, **kw), dtype=object), {})
+        if not np.allclose(v, np.linalg.norm(A, **kw)):
+            fails.append(("norm", str(kw)))
+    done += 1
+    v = harness.eval_array(np.asarray(npx.NPX.linalg.norm(S[:1], ord=2), dtype=object), {})     # 1 x m block: spectral == Frobenius
+    if not np.allclose(v, np.linalg.norm(A[:1], ord=2)):
+        fails.append(("norm", "1xm ord=2"))
+    for bad, exc in [(dict(ord=2), NotImplementedError), (dict(ord=2, axis=(0, 1)), NotImplementedError)]:
+        done += 1
+        try:
+            npx.NPX.linalg.norm(S, **bad)
+            fails.append(("norm-accepted", str(bad)))
+        except exc:
+            pass
     return done, fails
 
 
